@@ -97,8 +97,10 @@ func expectTx(bv acctView, tx *nom.AccountBlockTransaction, force bool) txExpect
 	if h := rcv.Height; h >= 1 && h <= uint64(len(all)) && all[h-1].Hash == rcv.Hash {
 		return txExpectation{kind: "already"}
 	}
-	// the fork point must be a block of the account that is not below the confirmed frontier
-	if fork.Height < nc || fork.Height < 1 || fork.Height >= uint64(len(all)) || all[fork.Height-1].Hash != fork.Hash {
+	// the fork point must be a block of the account that is not below the confirmed frontier - or, for an account without
+	// confirmed blocks, the empty account-chain (zero hash-height: a competitor for the account's FIRST block, /repo 417e0a5)
+	emptyChain := fork == (types.HashHeight{}) && nc == 0 && len(all) > 0
+	if !emptyChain && (fork.Height < nc || fork.Height < 1 || fork.Height >= uint64(len(all)) || all[fork.Height-1].Hash != fork.Hash) {
 		return txExpectation{kind: "bogus"}
 	}
 	at := int(fork.Height-nc) + 1
@@ -153,6 +155,12 @@ func (r *batchRun) emptyPool() bool {
 	if err != nil {
 		r.out.Oracle(false, "rollback-accepted", Tup(err.Error(), "batches: emptying the pool"))
 		return false
+	}
+	// after a momentum delete the pool of every account stands on the ledger (reorg.go)
+	for _, a := range append(r.allAccounts(), types.EmbeddedContracts[r.rng.Intn(len(types.EmbeddedContracts))]) {
+		if !r.clauseAfterDelete(a, "batches: pool emptied by a momentum delete") {
+			return false
+		}
 	}
 	return true
 }
